@@ -94,12 +94,12 @@ func errValueIs(v ssa.Value, ctor *ssa.Function, codes []string, depth int) (boo
 // errReturnsFrom: every return reachable from the given edges carries an error built by ctor with a code in codes.
 func errReturnsFrom(fn *ssa.Function, edges []an.Edge, ctor *ssa.Function, codes ...string) (bool, string, []string) {
 	why := ""
-	q := &an.PathQ{Fn: fn, StartEdges: edges, Sink: func(in ssa.Instruction, _ *an.PathState) bool {
+	q := &an.PathQ{Fn: fn, StartEdges: edges, AllAlias: true, Sink: func(in ssa.Instruction, st *an.PathState) bool {
 		r, ok := in.(*ssa.Return)
 		if !ok {
 			return false
 		}
-		e := errOperand(r)
+		e := errOperandOn(r, st)
 		if e == nil {
 			why = "returns without an error"
 			return true
@@ -310,6 +310,34 @@ func c03notready(c *an.Ctx) {
 		for _, t := range an.BoolTests(rc.Value()) {
 			notReady = append(notReady, t.False)
 		}
+		// a case expression `sub == nil || !client.IsReadyForMessages()` is evaluated as a value: a phi of true and the
+		// negated call, tested afterwards; its true edge is where "not ready" can hold
+		an.Instrs(fn, func(in ssa.Instruction) {
+			ifi, ok := in.(*ssa.If)
+			if !ok {
+				return
+			}
+			phi, ok := ifi.Cond.(*ssa.Phi)
+			if !ok {
+				return
+			}
+			for _, e := range phi.Edges {
+				neg := false
+				v := e
+				if u, ok := v.(*ssa.UnOp); ok && u.Op == token.NOT {
+					v, neg = u.X, true
+				}
+				if v != rc.Value() {
+					continue
+				}
+				b := ifi.Block()
+				if neg {
+					notReady = append(notReady, an.Edge{From: b, To: b.Succs[0]})
+				} else {
+					notReady = append(notReady, an.Edge{From: b, To: b.Succs[1]})
+				}
+			}
+		})
 	}
 	if len(notReady) == 0 || mainLoop == nil {
 		c.Bad(fn, "not ready => nil sources", sel.Pos(), "the pump does not test client.IsReadyForMessages() before selecting on the queues", nil)
@@ -704,104 +732,134 @@ func c03topicpause(c *an.Ctx) {
 }
 
 func c03wake(c *an.Ctx) {
+	type unit struct {
+		val       bool
+		want      int64
+		consts    map[ssa.Value]*ssa.Const
+		construct string
+	}
 	for _, spec := range []struct{ typ string }{{"Channel"}, {"Topic"}} {
-		fn := c.Fn("nsqd", "(*"+spec.typ+").doPause")
-		if fn == nil {
-			continue
+		dp := c.P.Func("nsqd", "(*"+spec.typ+").doPause")
+		type target struct {
+			fn    *ssa.Function
+			units []unit
 		}
-		pausedF := c.P.Field("nsqd", spec.typ, "paused")
-		storeOf := func(val int64) func(ssa.Instruction) bool {
-			return func(in ssa.Instruction) bool {
-				call, ok := in.(*ssa.Call)
-				if !ok || !an.StdCallee(call, "sync/atomic", "StoreInt32") {
-					return false
+		var targets []target
+		if dp != nil {
+			targets = append(targets, target{dp, []unit{
+				{true, 1, paramConst(dp, 1, true), "doPause(true): flag then wake"},
+				{false, 0, paramConst(dp, 1, false), "doPause(false): flag then wake"}}})
+		} else {
+			// doPause was inlined into Pause and UnPause: each of them is judged as the unit it now is
+			for _, m := range []struct {
+				name string
+				val  bool
+				want int64
+			}{{"Pause", true, 1}, {"UnPause", false, 0}} {
+				if f := c.Fn("nsqd", "(*"+spec.typ+")."+m.name); f != nil {
+					targets = append(targets, target{f, []unit{{m.val, m.want, nil, m.name + ": flag then wake"}}})
 				}
-				fa, ok := call.Call.Args[0].(*ssa.FieldAddr)
-				if !ok || an.FieldOf(fa) != pausedF {
-					return false
-				}
-				_ = val
-				return true
 			}
 		}
-		// the stored value, resolved through the constants chosen on the path (`v := 0; if pause { v = 1 }; Store(&paused, v)`)
-		storeVal := func(val int64) func(ssa.Instruction, *an.PathState) bool {
-			return func(in ssa.Instruction, st *an.PathState) bool {
-				call := in.(*ssa.Call)
-				if k, isC := an.ConstInt(call.Call.Args[1]); isC {
-					return k == val
-				}
-				if st == stepAny {
+		for _, tg := range targets {
+			fn := tg.fn
+			pausedF := c.P.Field("nsqd", spec.typ, "paused")
+			storeOf := func(val int64) func(ssa.Instruction) bool {
+				return func(in ssa.Instruction) bool {
+					call, ok := in.(*ssa.Call)
+					if !ok || !an.StdCallee(call, "sync/atomic", "StoreInt32") {
+						return false
+					}
+					fa, ok := call.Call.Args[0].(*ssa.FieldAddr)
+					if !ok || an.FieldOf(fa) != pausedF {
+						return false
+					}
+					_ = val
 					return true
 				}
-				if st != nil {
-					if kc, ok := st.ConstOf(call.Call.Args[1]); ok {
-						k, isC := an.ConstInt(kc)
-						return isC && k == val
+			}
+			// the stored value, resolved through the constants chosen on the path (`v := 0; if pause { v = 1 }; Store(&paused, v)`)
+			storeVal := func(val int64) func(ssa.Instruction, *an.PathState) bool {
+				return func(in ssa.Instruction, st *an.PathState) bool {
+					call := in.(*ssa.Call)
+					if k, isC := an.ConstInt(call.Call.Args[1]); isC {
+						return k == val
 					}
-				}
-				return false
-			}
-		}
-		var wake step
-		if spec.typ == "Channel" {
-			clientsF := c.P.Field("nsqd", "Channel", "clients")
-			var loop *an.IndexLoop
-			var iters []ssa.Instruction // every loop over the consumers that wakes each of them (one per arm is as good as one for both)
-			for _, il := range mapRangeLoops(fn, clientsF) {
-				ok, _ := loopDoesEach(fn, il, func(in ssa.Instruction, elems []ssa.Value) bool {
-					return isInvokeOn(in, "Consumer", "Pause", func(v ssa.Value) bool { return valueIn(v, elems) }) ||
-						isInvokeOn(in, "Consumer", "UnPause", func(v ssa.Value) bool { return valueIn(v, elems) })
-				})
-				if ok {
-					loop = il
-					iters = append(iters, ssa.Instruction(il.Iter))
-				}
-			}
-			c.Check(loop != nil, fn, "wakes every consumer", fn.Pos(), "", "doPause does not call Pause()/UnPause() on every consumer: pumps blocked in select never notice the change")
-			if loop == nil {
-				continue
-			}
-			wake = step{"wake every consumer", func(in ssa.Instruction) bool {
-				for _, it := range iters {
-					if in == it {
+					if st == stepAny {
 						return true
 					}
-				}
-				return false
-			}}
-		} else {
-			pauseChF := c.P.Field("nsqd", "Topic", "pauseChan")
-			wake = step{"token to pauseChan", func(in ssa.Instruction) bool {
-				if s, ok := in.(*ssa.Select); ok {
-					for _, st := range s.States {
-						if st.Dir == types.SendOnly && isLoadOfField(st.Chan, pauseChF) {
-							return s.Blocking
+					if st != nil {
+						if kc, ok := st.ConstOf(call.Call.Args[1]); ok {
+							k, isC := an.ConstInt(kc)
+							return isC && k == val
 						}
 					}
+					return false
 				}
-				if s, ok := in.(*ssa.Send); ok && isLoadOfField(s.Chan, pauseChF) {
-					return true
+			}
+			var wake step
+			if spec.typ == "Channel" {
+				clientsF := c.P.Field("nsqd", "Channel", "clients")
+				var loop *an.IndexLoop
+				var iters []ssa.Instruction // every loop over the consumers that wakes each of them (one per arm is as good as one for both)
+				for _, il := range mapRangeLoops(fn, clientsF) {
+					// in doPause either call is a wake-up (which one is decided per path, C06.pause); in Pause/UnPause with
+					// doPause inlined it must be the matching one
+					okPause, okUnPause := true, true
+					if dp == nil && len(tg.units) == 1 {
+						okPause, okUnPause = tg.units[0].val, !tg.units[0].val
+					}
+					ok, _ := loopDoesEach(fn, il, func(in ssa.Instruction, elems []ssa.Value) bool {
+						return (okPause && isInvokeOn(in, "Consumer", "Pause", func(v ssa.Value) bool { return valueIn(v, elems) })) ||
+							(okUnPause && isInvokeOn(in, "Consumer", "UnPause", func(v ssa.Value) bool { return valueIn(v, elems) }))
+					})
+					if ok {
+						loop = il
+						iters = append(iters, ssa.Instruction(il.Iter))
+					}
 				}
-				return false
-			}}
-		}
-		for _, pv := range []struct {
-			val  bool
-			want int64
-		}{{true, 1}, {false, 0}} {
-			ok, missing, w := seqOnAllPaths(fn, paramConst(fn, 1, pv.val), an.IsReturn, []step{{sprintf("store paused=%d", pv.want), func(in ssa.Instruction) bool { return storeOf(pv.want)(in) && storeVal(pv.want)(in, stepState) }}, wake})
-			// and the opposite value is never stored on this path family
-			q := &an.PathQ{Fn: fn, StartEntry: true, Consts: paramConst(fn, 1, pv.val), AllConsts: true,
-				Sink: func(in ssa.Instruction, st *an.PathState) bool { return storeOf(0)(in) && !storeVal(pv.want)(in, st) }}
-			_, wrong := q.Find()
-			construct := sprintf("doPause(%v): flag then wake", pv.val)
-			if ok && !wrong {
-				c.OK(fn, construct, fn.Pos(), "")
-			} else if wrong {
-				c.Bad(fn, construct, fn.Pos(), "the opposite flag value is stored", nil)
+				c.Check(loop != nil, fn, "wakes every consumer", fn.Pos(), "", "doPause does not call Pause()/UnPause() on every consumer: pumps blocked in select never notice the change")
+				if loop == nil {
+					continue
+				}
+				wake = step{"wake every consumer", func(in ssa.Instruction) bool {
+					for _, it := range iters {
+						if in == it {
+							return true
+						}
+					}
+					return false
+				}}
 			} else {
-				c.Bad(fn, construct, fn.Pos(), "a return is reachable without: "+missing, w)
+				pauseChF := c.P.Field("nsqd", "Topic", "pauseChan")
+				wake = step{"token to pauseChan", func(in ssa.Instruction) bool {
+					if s, ok := in.(*ssa.Select); ok {
+						for _, st := range s.States {
+							if st.Dir == types.SendOnly && isLoadOfField(st.Chan, pauseChF) {
+								return s.Blocking
+							}
+						}
+					}
+					if s, ok := in.(*ssa.Send); ok && isLoadOfField(s.Chan, pauseChF) {
+						return true
+					}
+					return false
+				}}
+			}
+			for _, pv := range tg.units {
+				ok, missing, w := seqOnAllPaths(fn, pv.consts, an.IsReturn, []step{{sprintf("store paused=%d", pv.want), func(in ssa.Instruction) bool { return storeOf(pv.want)(in) && storeVal(pv.want)(in, stepState) }}, wake})
+				// and the opposite value is never stored on this path family
+				q := &an.PathQ{Fn: fn, StartEntry: true, Consts: pv.consts, AllConsts: true,
+					Sink: func(in ssa.Instruction, st *an.PathState) bool { return storeOf(0)(in) && !storeVal(pv.want)(in, st) }}
+				_, wrong := q.Find()
+				construct := pv.construct
+				if ok && !wrong {
+					c.OK(fn, construct, fn.Pos(), "")
+				} else if wrong {
+					c.Bad(fn, construct, fn.Pos(), "the opposite flag value is stored", nil)
+				} else {
+					c.Bad(fn, construct, fn.Pos(), "a return is reachable without: "+missing, w)
+				}
 			}
 		}
 	}
@@ -810,9 +868,12 @@ func c03wake(c *an.Ctx) {
 		typ, m string
 		val    string
 	}{{"Channel", "Pause", "true"}, {"Channel", "UnPause", "false"}, {"Topic", "Pause", "true"}, {"Topic", "UnPause", "false"}} {
-		fn := c.Fn("nsqd", "(*"+spec.typ+")."+spec.m)
 		dp := c.P.Func("nsqd", "(*"+spec.typ+").doPause")
-		if fn == nil || dp == nil {
+		if dp == nil {
+			continue // judged above as units of their own
+		}
+		fn := c.Fn("nsqd", "(*"+spec.typ+")."+spec.m)
+		if fn == nil {
 			continue
 		}
 		good := false
